@@ -10,6 +10,7 @@ import (
 	"os"
 	"path/filepath"
 	"runtime"
+	"strings"
 	"sync"
 	"time"
 
@@ -132,8 +133,27 @@ func StartNode(cfg NodeConfig, chain *forge.Chain) (*Node, error) {
 	p.FactomClient.Factomd.Transport = n.Fake
 	p.FactomClient.Factomd.Timeout = 30 * time.Second
 	if cfg.Wrap {
+		// the wrapper driver opens the database itself; it must do so the way the daemon did. What the daemon's
+		// own connection ended up with (journal mode, synchronous) is read back and carried over, so that the
+		// daemon's choice of these is part of what is tested.
+		dsn := cfg.dsn()
+		var jm string
+		var syn int
+		if p.Pegnet.DB.QueryRow("PRAGMA journal_mode").Scan(&jm) == nil && jm != "" && !strings.Contains(dsn, "_journal=") {
+			dsn += "&_journal=" + strings.ToUpper(jm)
+		}
+		if p.Pegnet.DB.QueryRow("PRAGMA synchronous").Scan(&syn) == nil {
+			want := map[string]int{"OFF": 0, "NORMAL": 1, "FULL": 2, "EXTRA": 3}
+			cs := cfg.Sync
+			if cs == "" {
+				cs = "OFF"
+			}
+			if w, ok := want[strings.ToUpper(cs)]; ok && w != syn {
+				dsn = strings.Replace(dsn, "_synchronous="+cs, fmt.Sprintf("_synchronous=%d", syn), 1)
+			}
+		}
 		p.Pegnet.DB.Close()
-		db, err := sql.Open("sqlite3_verif", cfg.dsn())
+		db, err := sql.Open("sqlite3_verif", dsn)
 		if err != nil {
 			cancel()
 			return nil, err
